@@ -9,6 +9,7 @@ def dispatch (suite : String) (j : Json) : Except String Json :=
   | "bls" => DriverBls.handle j
   | "layout" => DriverLayout.handle j
   | "evolve" => DriverLayout.handlePair j
+  | "cost" => DriverLayout.handleCost j
   | s => throw s!"unknown suite {s}"
 
 partial def loop (suite : String) (h : IO.FS.Stream) (out : IO.FS.Stream) : IO Unit := do
